@@ -850,6 +850,29 @@ func c18(r *Report) {
 	})
 
 	r.Guard("C18.R7", "buckets created for a connection or a shape are closed when it goes away", func() {
+		// the listener's own two buckets (each a ticker and a goroutine) go with the listener
+		if lc := r.W.Fn("trafficshape", "Listener.Close"); lc != nil && lc.Blocks != nil {
+			r.Touch(lc)
+			gl := G(lc)
+			for _, fld := range []string{"ReadBucket", "WriteBucket"} {
+				isClose := func(i ssa.Instruction) bool {
+					c, y := isCall(i, "(*M/trafficshape.Bucket).Close")
+					if !y {
+						return false
+					}
+					ld, isLd := c.Common().Args[0].(*ssa.UnOp)
+					if !isLd {
+						return false
+					}
+					fa, isFa := ld.X.(*ssa.FieldAddr)
+					return isFa && fieldObj(fa).Name() == fld
+				}
+				p := gl.PathTo([]ssa.Instruction{gl.Entry()}, true, isClose, isReturn)
+				r.Decide("path", "(*M/trafficshape.Listener).Close closes its "+fld, p == nil, "Bucket.Close on every path", "closing the listener leaves the bucket's ticker goroutine running", lc.Pos())
+			}
+		}
+		setterStoresRule(r, "trafficshape", "Listener", "SetDefaults", "defaults", "an accepted configuration's default bandwidth never takes effect")
+		setterStoresRule(r, "trafficshape", "Listener", "SetLatency", "latency", "the configured latency never takes effect")
 		// a failed Accept is reported, not turned into a nil connection
 		errorsReturnedRule(r, r.W.Fn("trafficshape", "Listener.Accept"), false)
 		gts := r.Use("trafficshape", "Listener.GetTrafficShapedConn")
